@@ -82,6 +82,7 @@ vproof! {
 }
 
 //@ id: c06_stdnormal_wedge_upper
+//@ besteffort: yes
 //@ prop: C06
 //@ tier: thorough
 //@ cap: 1800
@@ -343,6 +344,7 @@ macro_rules! c07_normal {
 //@ assumes: utils::ziggurat replaced by a free logged draw consuming one word
 c07_normal!(c07_normal_f64, f64, false);
 //@ id: c07_normal_zscore_f64
+//@ besteffort: yes
 //@ prop: C07
 //@ tier: thorough
 //@ cap: 3600
@@ -402,3 +404,87 @@ c07_lognormal!(c07_lognormal_f64, f64);
 //@ bounds: as c07_lognormal_f64
 //@ assumes: utils::ziggurat, libm::expf replaced by free logging stubs
 c07_lognormal!(c07_lognormal_f32, f32);
+
+// ------------------------------------------------------------------------------------------
+// C06: wedge acceptance at the two edges of a layer.  A wedge candidate whose density equals f(x_i)
+// (the outer edge, the lowest density in layer i) lies on or above every height f_{i+1} + (f_i - f_{i+1}) v
+// and must be rejected; one whose density equals f(x_{i+1}) (inner edge) lies below every height with v > 0
+// and must be accepted.  The density is supplied by a stub for exp that returns the chosen table value.
+// ------------------------------------------------------------------------------------------
+fn wedge_edges<const NORMAL: bool>() {
+    let mut rng = SymRng::new(3);
+    let w0 = rng.words[0];
+    let w1 = rng.words[1];
+    let i = (w0 & 0xff) as usize;
+    kani::assume(i != 0);
+    let inner: bool = kani::any();
+    let (xtab, ftab) = if NORMAL { (&ZIG_NORM_X, &ZIG_NORM_F) } else { (&crate::ziggurat_tables::ZIG_EXP_X, &crate::ziggurat_tables::ZIG_EXP_F) };
+    unsafe { FIXED_EXP = if inner { ftab[i + 1] } else { ftab[i] }; }
+    // height uniform v = (w1 >> 11) 2^-53
+    let vbits = w1 >> 11;
+    // candidate near the OUTER edge of the layer (|u| >= 1 - 2^-10) for the must-reject case, so that the
+    // counterexample also shows the discrepancy with the real density when replayed natively
+    let frac = w0 >> 12; // 52-bit mantissa of u's carrier
+    let near_outer = if NORMAL {
+        frac >= (1u64 << 52) - (1u64 << 41) || frac < (1u64 << 41)
+    } else {
+        frac >= (1u64 << 52) - (1u64 << 42)
+    };
+    if NORMAL {
+        let _z: f64 = StandardNormal.sample(&mut rng);
+    } else {
+        let _x: f64 = crate::Exp1.sample(&mut rng);
+    }
+    kani::assume(rng.pos >= 2); // not the rectangle
+    if native() {
+        // native replay: the real density is used; state the wedge decision by its definition
+        let u = if NORMAL {
+            f64::from_bits(frac | 0x4000_0000_0000_0000) - 3.0
+        } else {
+            f64::from_bits(frac | 0x3ff0_0000_0000_0000) - (1.0 - f64::EPSILON / 2.0)
+        };
+        let x = u * xtab[i];
+        let pdf = if NORMAL { (-x * x / 2.0).exp() } else { (-x).exp() };
+        let h = ftab[i + 1] + (ftab[i] - ftab[i + 1]) * (vbits as f64 * (1.0 / 9007199254740992.0));
+        vassert!((rng.pos == 2) == (h < pdf), "ziggurat wedge: acceptance differs from `f_{i+1} + (f_i - f_{i+1}) U < pdf(x)`");
+        return;
+    }
+    if inner {
+        // any height with v >= 1/2 is clearly below f(x_{i+1})
+        vassert!(vbits < (1u64 << 52) || rng.pos == 2, "ziggurat wedge: a candidate below the density curve (density f(x_{i+1})) was rejected");
+    } else if near_outer && vbits != 0 && vbits < (1u64 << 43) {
+        vassert!(rng.pos != 2, "ziggurat wedge: a candidate on/above the density curve (density f(x_i)) was accepted");
+    }
+    kani::cover!(inner && rng.pos == 2, "inner edge accepted");
+    kani::cover!(!inner && near_outer && vbits != 0 && vbits < (1u64 << 43) && rng.pos == 3, "outer edge rejected, next trial accepted");
+}
+
+//@ id: c06_wedge_edges_normal
+//@ prop: C06
+//@ tier: quick
+//@ cap: 900
+//@ funcs: utils::ziggurat wedge test f_tab[i+1] + (f_tab[i] - f_tab[i+1]) * U < pdf(x) (symmetric instance); ZIG_NORM_F
+//@ bounds: every layer i != 0, every candidate and height word; density at the candidate fixed to f(x_i) resp. f(x_{i+1}); up to 3 words
+//@ assumes: f64::exp replaced by a stub returning the chosen table value
+#[kani::proof]
+#[kani::stub(f64::exp, c_exp64_fixed)]
+#[kani::stub(f64::ln, c_ln64)]
+#[kani::unwind(5)]
+fn c06_wedge_edges_normal() {
+    wedge_edges::<true>()
+}
+
+//@ id: c06_wedge_edges_exp
+//@ prop: C06
+//@ tier: quick
+//@ cap: 900
+//@ funcs: utils::ziggurat wedge test (one-sided instance); ZIG_EXP_F
+//@ bounds: as c06_wedge_edges_normal
+//@ assumes: f64::exp replaced by a stub returning the chosen table value
+#[kani::proof]
+#[kani::stub(f64::exp, c_exp64_fixed)]
+#[kani::stub(f64::ln, c_ln64)]
+#[kani::unwind(5)]
+fn c06_wedge_edges_exp() {
+    wedge_edges::<false>()
+}
